@@ -625,6 +625,90 @@ def run(ck):
                 ok = any(x.state == State.ESTABLISHED and str(x.peer_addr) == P2A for x in hub.ctl.ike_sas)
                 if typ != 'NEWSA' and not ok:
                     ck.violation(f'other-peer-not-served:persistent-{typ}-refusal', {'hub': [(x.state.name, str(x.peer_addr)) for x in hub.ctl.ike_sas]}, sim.case)
+    # ---- transmissions towards ONE peer fail persistently (its link is down, a queue that never drains): every kind of errno, while that peer is in the
+    # middle of a handshake / an exchange. The loop must keep coming back to select() and serve the other peer (replies and timers)
+    for ei, err in enumerate([105, 11, 101, 113, 1, 90, 12]):            # ENOBUFS EAGAIN ENETUNREACH EHOSTUNREACH EPERM EMSGSIZE ENOMEM
+        for when in ('from-the-start', 'once-established'):
+            n += 1
+            if not ck.mine(n):
+                continue
+            sim, hub, (p1, p2) = S.make_star(base + 77 + ei, peers=2)
+            sim.case = {'persistent_send_failure_towards': P1A, 'errno': err, 'when': when}
+            died = []
+            sim.monitors.append(lambda s_, ep, rec: died.append(rec) if (rec.died and ep is hub) else None)
+            if when == 'once-established':
+                sim.acquire(p1, 0, sport=6900)
+                sim.drain()
+            hub.sendto_persistent[P1A] = err
+            sim.acquire(p1, 0, sport=6901)            # IKE_SA_INIT (or CREATE_CHILD_SA) from P1: the hub's answer cannot be sent
+            for _ in range(3):
+                sim.drain()
+                sim.tick_all(1.1)
+            if when == 'once-established':
+                hs = [x for x in hub.ctl.ike_sas if str(x.peer_addr) == P1A and x.state == State.ESTABLISHED]
+                if hs:
+                    hs[0].start_dpd_at = sim.clock.t - 1      # a request of the hub's own towards the unreachable peer, and its retransmissions
+                    hub.step('tick')
+                    sim.tick_all(2.1)
+            ck.count('persistent_send_failure.runs')
+            ck.nontrivial(('persistent-send-failure', err, when))
+            sim.acquire(p2, 0, sport=6950)
+            sim.drain()
+            ok = any(x.state == State.ESTABLISHED and x.child_sas for x in p2.ctl.ike_sas) and \
+                any(x.state == State.ESTABLISHED and x.child_sas and str(x.peer_addr) == P2A for x in hub.ctl.ike_sas)
+            if died:
+                ck.violation(f'loop-terminated-or-spinning:{type(died[0].exc).__name__}:persistent-send-failure-towards-one-peer', {'errno': err, 'exc': repr(died[0].exc)[:200]}, sim.case)
+            elif not ok:
+                ck.violation('other-peer-not-served:persistent-send-failure-towards-one-peer', {'errno': err, 'hub': [(x.state.name, str(x.peer_addr)) for x in hub.ctl.ike_sas]}, sim.case)
+            else:
+                ck.count('persistent_send_failure.other_peer_served')
+    # ---- identities a conformant peer may present (RFC 7296 3.5 puts no limit on them beyond the payload length): long labels, characters outside
+    # [A-Za-z0-9.-], several '@', other ID types. They are rendered for the log BEFORE authentication; each turn must come back within its CPU budget
+    from vf.ref import party as party_
+    rng_id = ck.rng('ids', ck.shard[0])
+    alnum = 'roadwarrior0123456789abcdefghijklmnopqrstuvwxyzABCDEFGHIJ'
+    names = [alnum + '_laptop@example.com', alnum + ' laptop', 'a' * 60 + '!', ('ab-' * 30) + '_', ('x.' * 40) + '@', 'user@@example..com', alnum + ':500', 'a' * 3000 + '~',
+             ('a' * 40 + '.') * 20 + '$', '\u00e9' * 50 + '@example.com', '', '@', '.' * 200, '-' * 200 + 'a', ('0' * 50 + '+') * 10 + '?', 'A' * 64 + '\n[INFO] forged line',
+             '%s%s%n' * 40, '{' * 100, '\\' * 100 + 'd+' * 30, '(' * 50 + 'a' * 50]
+    for ni, name in enumerate(names):
+        for idtype in (2, 3, 11, 9, 1, 5, 200):
+            n += 1
+            if not ck.mine(n):
+                continue
+            sim, hub, (p1, p2) = S.make_star(base + 88, peers=2)
+            sim.case = {'unusual_identity': name[:80], 'length': len(name), 'idtype': idtype}
+            died = []
+            sim.monitors.append(lambda s_, ep, rec: died.append(rec) if (rec.died and ep is hub) else None)
+            pr = party_.RefParty(P1A, HUB, rng_id)
+            trs = [{'type': 1, 'id': 12, 'keylen': 256}, {'type': 3, 'id': 12, 'keylen': None}, {'type': 2, 'id': 5, 'keylen': None}, {'type': 4, 'id': 19, 'keylen': None}]
+            sim.inject(hub, P1A, HUB, pr.init_request(trs, 19))
+            res = next((d.data for d in sim.net if d.dst == P1A), None)
+            sim.net.clear()
+            if res is None or not pr.take_init_response(res):
+                ck.count('unusual_identity.no_init_response')
+                continue
+            ident = name.encode()
+            child = [{'type': 1, 'id': 12, 'keylen': 256}, {'type': 3, 'id': 12, 'keylen': None}, {'type': 5, 'id': 0, 'keylen': None}]
+            a4, b4 = bytes([192, 0, 2, 1]), bytes([192, 0, 2, 100])
+            tsi = [{'tstype': 7, 'ipproto': 0, 'sport': 0, 'eport': 65535, 'saddr': a4, 'eaddr': a4}]
+            tsr = [{'tstype': 7, 'ipproto': 0, 'sport': 0, 'eport': 65535, 'saddr': b4, 'eaddr': b4}]
+            msg = pr.auth_request(idtype, ident, 2, pr.auth_psk(c02.PSK_A, idtype, ident), child, 3, tsi, tsr, False)
+            if len(msg) > 4000:
+                ck.count('unusual_identity.too_long_for_one_datagram')
+                continue
+            sim.inject(hub, P1A, HUB, msg)
+            sim.net.clear()
+            ck.count('unusual_identity.runs')
+            ck.nontrivial(('unusual-identity', ni, idtype))
+            if died:
+                ck.violation(f'loop-terminated-or-spinning:{type(died[0].exc).__name__}:ike-auth-with-an-unusual-identity', {'exc': repr(died[0].exc)[:200], 'idtype': idtype, 'identity': name[:100]}, sim.case)
+                continue
+            sim.acquire(p2, 0, sport=6960)
+            sim.drain()
+            if not any(x.state == State.ESTABLISHED and x.child_sas and str(x.peer_addr) == P2A for x in hub.ctl.ike_sas):
+                ck.violation('other-peer-not-served:after-ike-auth-with-an-unusual-identity', {'idtype': idtype, 'identity': name[:100]}, sim.case)
+            else:
+                ck.count('unusual_identity.other_peer_served')
     mon.stop()
 
 
@@ -645,5 +729,7 @@ def verdict(ck):
     ck.floor('failures to open the netlink socket of a request', c['faults.netlink-socket'], 10)
     ck.floor('events that raise while a retransmission is due, after which the retransmission came', c['raising_event_while_timer_due.retransmitted'], 8)
     ck.floor('persistent kernel refusal runs with live timer service', c['persistent.timer_service_alive'], 20)
+    ck.floor('runs with a persistent transmission failure towards one peer after which the other was served', c['persistent_send_failure.other_peer_served'], 10)
+    ck.floor('IKE_AUTH requests with unusual identities after which the other peer was served', c['unusual_identity.other_peer_served'], 80)
     ck.floor('phases', len(ck.sets['phases']), 5)
     return None
